@@ -93,6 +93,10 @@ def corner_models():
                 mk([oh.make_node("Softmax", ["x"], ["s"], axis=1),
                     oh.make_node("Scaler", ["s"], ["y"], domain="ai.onnx.ml", scale=[2.0], offset=[0.5])],
                    [vi("x", (2, 2, 2))], [vi("y", (2, 2, 2))], opset=11, extra_imports=[oh.make_operatorsetid("ai.onnx.ml", 1)]), True))
+    # statically EMPTY dimensions in the declared types (0 is a dimension like any other: it is neither unknown nor a wildcard)
+    out.append(("zero-dim-output", mk([oh.make_node("Slice", ["x", "starts", "ends"], ["y"])], [vi("x", (2, 3))], [vi("y", (0, 3))],
+                                      [oh.make_tensor("starts", TP.INT64, (1,), [0]), oh.make_tensor("ends", TP.INT64, (1,), [0])]), True))
+    out.append(("zero-dim-input", mk([oh.make_node("Concat", ["x", "extra"], ["y"], axis=0)], [vi("x", (2, 3)), vi("extra", (0, 3))], [vi("y", (2, 3))]), True))
     out.append(("opset13-relu", mk([oh.make_node("Relu", ["x"], ["y"])], [vi("x")], [vi("y")], opset=13), True))
     for tag, m, _ in out:
         onnx.checker.check_model(m)
@@ -104,6 +108,81 @@ def arg_for(info: onnx.ValueInfoProto):
     dt = onnx.helper.tensor_dtype_to_np_dtype(tt.elem_type)
     shape = tuple(d.dim_value if d.WhichOneof("value") == "dim_value" else 2 for d in tt.shape.dim)
     return B.argument(B.Tensor(dt, shape)), dt, shape
+
+
+def declared_simple(tp: onnx.TypeProto):
+    """(numpy dtype, shape) a tensor TypeProto declares: dim_value -> int (0 included), dim_param -> str, neither -> None; shape None if absent"""
+    tt = tp.tensor_type
+    dt = np.dtype(onnx.helper.tensor_dtype_to_np_dtype(tt.elem_type))
+    if not tt.HasField("shape"):
+        return dt, None
+    return dt, tuple(int(d.dim_value) if d.WhichOneof("value") == "dim_value" else (str(d.dim_param) if d.WhichOneof("value") == "dim_param" else None)
+                     for d in tt.shape.dim)
+
+
+def type_cases(run, models):
+    """Arguments whose type CANNOT match the declared input type (other element type, other rank, another static extent where the
+    declaration is static - 0 included) must raise TypeError at the call; the declared types themselves are accepted and the returned
+    Vars carry exactly the declared output types.  Returns (number of calls, histogram)."""
+    hist = collections.Counter()
+    n = 0
+    for tag, m, _ in models:
+        infos = [i for i in m.graph.input if i.type.HasField("tensor_type")]
+        if len(infos) != len(m.graph.input):
+            continue
+        good = {}
+        for info in infos:
+            dt, shape = declared_simple(info.type)
+            good[info.name] = (dt, tuple(2 if not isinstance(d, int) else d for d in shape) if shape is not None else (2,))
+        for victim in infos:
+            dt, shape = declared_simple(victim.type)
+            gdt, gshape = good[victim.name]
+            variants = [("element-type", np.dtype(np.int64) if dt != np.dtype(np.int64) else np.dtype(np.float32), gshape)]
+            if shape is not None:
+                variants.append(("rank", gdt, gshape + (1,)))
+                for ax, d in enumerate(shape):
+                    if isinstance(d, int):
+                        variants.append((f"static-extent-{d}", gdt, gshape[:ax] + ((5,) if d == 0 else (d + 3,)) + gshape[ax + 1:]))
+                        if d != 0:
+                            variants.append((f"static-extent-{d}-vs-0", gdt, gshape[:ax] + (0,) + gshape[ax + 1:]))
+            for what, vdt, vshape in variants:
+                args = {k: B.argument(B.Tensor(*(good[k] if k != victim.name else (vdt, vshape)))) for k in good}
+                n += 1
+                try:
+                    B.inline(m)(**args)
+                    hist["accepted"] += 1
+                    run.fail("impl", f"C08/incompatible-argument-accepted/{what.split('-')[0]}",
+                             f"inline({tag}): input {victim.name!r} is declared {dt}{list(shape) if shape is not None else '[...]'} but an argument of type "
+                             f"{vdt}{list(vshape)} was accepted instead of raising TypeError", {"tag": tag, "input": victim.name, "variant": what})
+                except TypeError:
+                    hist["TypeError/" + what.split("-")[0]] += 1
+                except Exception as e:  # noqa: BLE001
+                    hist["other"] += 1
+                    run.fail("impl", "C08/bind-wrong-exception", f"an argument of the wrong type raised {type(e).__name__} instead of TypeError",
+                             {"tag": tag, "input": victim.name, "variant": what})
+        # the declared types themselves: accepted, and the results carry exactly the declared output types
+        args = {k: B.argument(B.Tensor(*good[k])) for k in good}
+        n += 1
+        try:
+            res = B.inline(m)(**args)
+        except Exception as e:  # noqa: BLE001
+            run.fail("impl", f"C08/call-rejected/{tag}", f"inline({tag})(arguments of the declared types) raised {type(e).__name__}: {str(e)[:120]}", {"tag": tag})
+            continue
+        for o, v in zip(m.graph.output, res.values()):
+            if not o.type.HasField("tensor_type"):
+                continue
+            ddt, dshape = declared_simple(o.type)
+            # inline() documents that symbolic dimensions of m's inputs and outputs are stripped: a named dimension is carried as unknown
+            dshape = tuple(d if isinstance(d, int) else None for d in dshape) if dshape is not None else None
+            t = v.unwrap_tensor()
+            if np.dtype(t.dtype) != ddt or (tuple(t.shape) if t.shape is not None else None) != dshape:
+                hist["output-type-differs"] += 1
+                run.fail("impl", "C08/output-types", f"inline({tag}): output {o.name!r} is declared {ddt}{list(dshape) if dshape is not None else '[...]'} "
+                         f"but the returned Var has type {v.type}", {"tag": tag, "output": o.name})
+                break
+        else:
+            hist["declared-types-carried"] += 1
+    return n, dict(hist)
 
 
 def rand_value(nprng, dt, shape):
@@ -287,6 +366,7 @@ def run(run: Run) -> int:
                 run.fail("corr", f"C08/bind/{c['tag']}", "argument binding differs from the model", {**c, "model": mo})
         elif c["obs"].startswith("ERR") and c["obs"] != "ERR TypeError":
             run.fail("impl", "C08/bind-wrong-exception", f"bad call raised {c['obs']} instead of TypeError", c)
+    n_type_calls, thist = type_cases(run, models)
     # (ii) emission + semantics
     cases, sem_bad, n_sem = [], 0, 0
     nprng = np.random.RandomState(run.seed)
@@ -336,12 +416,13 @@ def run(run: Run) -> int:
     for i in mism[:5]:
         run.fail("corr", f"C08/model-vs-impl/{cases[i].meta['tag']}", "model and implementation disagree on the emitted inlined block", B.describe(cases[i]))
     cov = {
-        "evaluations": len(bcases) + len(cases), "distinct_nontrivial": len({c.impl for c in cases if c.model_proto is not None}),
+        "evaluations": len(bcases) + len(cases) + n_type_calls, "distinct_nontrivial": len({c.impl for c in cases if c.model_proto is not None}),
         "rule": "calling forms: random positional prefixes (incl. surplus), keywords (incl. duplicates/unknown), defaults; models: "
                 f"{len(corners)} hand-built corner shapes + {len(spox_models)} spox-built; compositions once/twice/inside If/chained; distinct built models by rendering",
         "traces_validated_against_impl": (len(bcases) - n_bind_mis) + len([c for c in cases if c.coq is not None]) - len(mism),
         "disagreements_checked": len(mism) + n_bind_mis, "semantic_runs_ort_m_vs_built": n_sem, "semantic_mismatches": sem_bad,
-        "input_distribution": {"binding_outcomes": dict(bhist), "emission_outcomes": dict(ehist)},
+        "type_boundary_calls": n_type_calls,
+        "input_distribution": {"binding_outcomes": dict(bhist), "emission_outcomes": dict(ehist), "type_boundary_outcomes": thist},
         "samples": [bcases[0], B.describe(cases[0])],
     }
     return run.finish(cov, [
